@@ -34,7 +34,7 @@ def floors(tier):
     return {"evaluations": 1500 if q else 20000, "distinct_nontrivial": 500 if q else 8000, "kind:synth": 800 if q else 14000,
             "kind:curated": 300 if q else 5000, "edges_checked": 4000 if q else 60000, "flags_on": 300 if q else 5000,
             "edge_reason:wb": 30 if q else 400, "zero_idiom_active": 40 if q else 600, "alias_edges": 300 if q else 5000,
-            "killed_candidates": 500 if q else 8000, "default_rule_forms": 100 if q else 1500, "isa:x86": 1, "isa:aarch64": 1,
+            "killed_candidates": 500 if q else 8000, "default_rule_forms": 100 if q else 1500, "hidden_register_operand_instances": 100 if q else 1500, "isa:x86": 1, "isa:aarch64": 1,
             "weights_checked": 4000 if q else 60000}
 
 
@@ -261,6 +261,7 @@ def synth_case(isa, m, isa_db, vocab, by, path, ipath, mseed, kseed, R, sample=T
     if flags:
         R.count("flags_on")
     R.count("zero_idiom_active", sum(1 for i in kernel_ast if by[i["form"]]["zero"] and not i["reads"]))
+    R.count("hidden_register_operand_instances", sum(1 for i in kernel_ast if i["form"] in ("hr0a", "hr1a")))
     nt = judge(isa, kernel_ast, forms, dg, mm, flags, R, case, by)
     R.case(digest(text + str(flags)), nontrivial=nt)
     R.count("kind:synth")
